@@ -350,3 +350,53 @@ Proof.
     + rewrite rev_app_distr. cbn [rev]. rewrite !flat_map_app. cbn [flat_map rl_elem_kinds]. rewrite HK.
       rewrite (rl_leaves_no_kinds _ (rl_rev_leaves _ Hlv)), Hk2. reflexivity.
 Qed.
+
+(* ------------------------------------------------------------------ Parser::parse: the tree *)
+Lemma rl_push_ignored_init_builder dbg rl items u s1 :
+  p_push_ignored (p_init_state dbg rl items) = POk (u, s1) -> ps_builder s1 = pb_new.
+Proof. unfold p_push_ignored. cbn. intros [= _ <-]. reflexivity. Qed.
+
+Theorem rl_document_tree_kinds f dbg rl items u s' ds : rl_stream items ->
+  g_document f (p_init_state dbg rl items) = POk (u, s') -> ps_errors s' = [] ->
+  rg_document_r (rgl_definition LP) (rl_sig items) = RgOk ds ->
+  exists cs, pb_children (ps_builder s') = [PNode SK_DOCUMENT cs] /\ flat_map rl_elem_kinds cs = map fst ds.
+Proof.
+  intros Hstr E He Hq. rewrite g_document_unfold in E. unfold p_node in E. apply bind_ok in E as (? & s1 & E1 & E).
+  destruct (rl_start_node_init _ _ _ _ _ _ Hstr E1) as (Hok1 & Hsig1 & He1 & Hr1).
+  (* the builder after the first start_node: one open node, nothing in it *)
+  assert (Hb1 : pb_parents (ps_builder s1) = [(SK_DOCUMENT, O)] /\ pb_children (ps_builder s1) = []).
+  { unfold p_start_node in E1. apply bind_ok in E1 as (? & s0 & E0 & E1). apply rl_push_ignored_init_builder in E0.
+    apply bind_ok in E1 as (? & s0' & Em & E1). unfold p_modify in Em. injection Em as _ <-.
+    apply rl_skip_ignored_builder in E1. rewrite E1. cbn. rewrite E0. auto. }
+  destruct Hb1 as [Hp1 Hc1].
+  apply bind_ok in E as (? & s9 & E & Ef). apply bind_ok in Ef as (? & s10 & Ef & Er). unfold p_ret in Er.
+  injection Er as _ <-.
+  assert (Ht1 : tr_ok (ps_rec s1)) by (rewrite Hr1; unfold tr_ok; cbn; lia).
+  pose proof Hok1 as [Hinv1 Ha1]. destruct (rl_inv_cur _ Hinv1) as (t & Hct & Hi1 & _).
+  unfold p_bind at 1 in E. rewrite (peek_some t s1 Hct) in E.
+  apply bind_ok in E as (? & s2 & E2 & E). apply bind_ok in E as (? & s3 & E3 & E4).
+  unfold p_peek_while in E3. apply bind_ok in E3 as (u3 & s3' & E3 & Er). unfold p_ret in Er. injection Er as _ ->.
+  (* errors: none anywhere *)
+  assert (Hef : ps_errors s10 = ps_errors s9) by (apply rl_finish_node_obs in Ef; exact (proj1 (proj2 (proj2 Ef)))).
+  assert (He4 : ps_errors s9 = ps_errors s3) by (apply rl_push_ignored_obs in E4; exact (proj1 (proj2 (proj2 E4)))).
+  rewrite <- Hsig1 in Hq.
+  destruct (tkind_eqb (tok_kind t) TkEof) eqn:Hk.
+  { apply tkind_eqb_eq in Hk. rewrite (rl_sigs_eof _ _ Hinv1 Hct Hk) in Hq. discriminate Hq. }
+  assert (Hne : tok_kind t <> TkEof) by (intros H; apply tkind_eqb_eq in H; congruence).
+  assert (Hw : match tok_kind t with TkEof => true | _ => false end = false) by (destruct (tok_kind t); try reflexivity; contradiction).
+  rewrite Hw in E2. cbn [p_when] in E2. unfold p_ret in E2. injection E2 as _ <-.
+  destruct (rl_sigs_tok _ _ Hinv1 Hct Hne) as (Hsig & _ & _).
+  assert (Hq' : rg_defs_f (length (rl_sigs s1)) (rgl_definition LP) (rl_sigs s1) = RgOk ds).
+  { rewrite Hsig in Hq |- *. exact Hq. }
+  assert (He3 : ps_errors s3 = ps_errors s1) by congruence.
+  destruct (rl_document_loop_kinds f f _ _ _ _ E3 Hok1 Ht1 He3 _ ds (le_n _) Hq') as (Hp3 & new & Hc3 & Hkinds).
+  (* the final push_ignored puts trailing trivia on top; finish_node closes the DOCUMENT node *)
+  destruct (rl_push_ignored_run _ _ _ E4) as (Hp9 & (lv & Hc9 & Hlv) & _).
+  unfold p_finish_node, p_lift_b in Ef. destruct (pb_finish_node (ps_builder s9)) as [b10| |] eqn:Efn; try discriminate.
+  injection Ef as _ <-. cbn [ps_builder ps_set_builder].
+  unfold pb_finish_node in Efn. rewrite Hp9, Hp3, Hp1, Hc9, Hc3, Hc1 in Efn.
+  cbn [Nat.ltb Nat.leb] in Efn. injection Efn as <-. cbn [pb_children].
+  rewrite Nat.sub_0_r, app_nil_r, firstn_all, skipn_all.
+  exists (rev (lv ++ new)). split; [reflexivity|].
+  rewrite rev_app_distr, flat_map_app, Hkinds, (rl_leaves_no_kinds _ (rl_rev_leaves _ Hlv)). apply app_nil_r.
+Qed.
